@@ -131,6 +131,11 @@ func c14Cases(seed uint64, tier string) []core.Case {
 	cs = append(cs, core.MkCase("twin/anchor/p2p-split-replicators", 6, c14Params{Profile: "p2p", Mode: "twin", Script: splitScript}))
 	cs = append(cs, core.MkCase("crash/anchor/p2p-split-replicators", 7, c14Params{Profile: "p2p", Mode: "crash", Script: splitScript[:7]}))
 
+	// crash point inside the replication retry machinery (c14_retry_restart.go): seeds give 1-3 queued documents
+	for i := 0; i < tierN(tier, 3, 12); i++ {
+		cs = append(cs, core.MkCase("crash/retry-in-flight", uint64(100+i), c14Params{Profile: "p2p", Mode: "retry-restart"}))
+	}
+
 	rng := rand.New(rand.NewPCG(seed, 1414))
 	nTwin, nCrash := tierN(tier, 150, 1600), tierN(tier, 30, 500)
 	for i := 0; i < nTwin; i++ {
@@ -1754,6 +1759,10 @@ func c14Identity(rng *rand.Rand) identity.Identity {
 func runC14(ctx context.Context, c core.Case, r *core.Rec) {
 	var p c14Params
 	c.P(&p)
+	if p.Mode == "retry-restart" {
+		runC14RetryRestart(ctx, c, r)
+		return
+	}
 	x := &c14Run{ctx: ctx, r: r, rng: c.Rng(), p: p, c: c, cols: map[string]*c14Col{}, docs: map[string][]string{}, docOwner: map[string]string{},
 		poolUsed: map[int]bool{}, kindsBefore: map[string]bool{}, allocAfter: map[string]bool{}, boundary: map[int][]c14Section{}}
 	x.actors = []c14Actor{{name: "anon"}}
@@ -1979,7 +1988,8 @@ func c14IsSchemaKind(k string) bool {
 func init() {
 	floors := []string{"restarts", "dump_comparisons", "post_restart_ops_compared", "nontrivial_histories",
 		"post_restart_alloc_collection", "post_restart_alloc_field", "post_restart_alloc_index", "post_restart_alloc_doc", "post_restart_alloc_policy",
-		"crash_prefixes_replayed", "crash_prefix_boundary_compared", "crash_prefix_mid_operation", "crash_prefix_dag_audits", "crash_histories", "id_reuse_checks"}
+		"crash_prefixes_replayed", "crash_prefix_boundary_compared", "crash_prefix_mid_operation", "crash_prefix_dag_audits", "crash_histories", "id_reuse_checks",
+		"retry_restart_crash_point_reached", "retry_restart_reopened_with_record_in_state_retrying"}
 	for _, k := range c14KindsPlain {
 		floors = append(floors, "before_restart_"+k)
 	}
